@@ -21,6 +21,7 @@ struct Bind {
     addr: [u8; 4],
     port: u16,
     ok: bool,
+    late: bool,
 }
 
 #[derive(Clone, Debug)]
@@ -44,6 +45,8 @@ fn app_type(n: usize) -> TypeId {
     }
 }
 
+/// Datagram ids of the second round (sent after the bindings made while running).
+const SECOND: u64 = 1 << 40;
 const WILD: [u8; 4] = [0, 0, 0, 0];
 const BCAST: [u8; 4] = [255, 255, 255, 255];
 
@@ -80,6 +83,7 @@ impl E2Run for UdpBind {
                 mtus.push(mtu);
             }
             let n_machines = 2 + sim::choose(5) as usize;
+            let two_phases = sim::chance(1, 2);
             // addresses: machine m on network n has 10.0.n.(m+1)
             let mut taps: Vec<Vec<(usize, u64)>> = vec![];
             let mut pcis = vec![];
@@ -119,6 +123,18 @@ impl E2Run for UdpBind {
                     let port = ports[sim::choose(3) as usize];
                     app_binds[app].push((addr, port));
                 }
+                // bindings made while the simulation runs, after the first round of datagrams
+                let mut late_binds: Vec<(usize, [u8; 4], u16)> = vec![];
+                if two_phases {
+                    for _ in 0..sim::choose(4) {
+                        let app = sim::choose(4) as usize;
+                        let addr = match sim::choose(4) {
+                            0 => WILD,
+                            _ => my_ips[sim::choose(my_ips.len() as u64) as usize],
+                        };
+                        late_binds.push((app, addr, ports[sim::choose(3) as usize]));
+                    }
+                }
                 // make sure the machine claims its addresses (ARP needs an owner)
                 for ip in &my_ips {
                     if !app_binds.iter().flatten().any(|(a, _)| a == ip) {
@@ -127,7 +143,9 @@ impl E2Run for UdpBind {
                 }
                 // sends planned for this machine (issued by application 0)
                 let mut plan = vec![];
-                for _ in 0..sim::choose(5) {
+                let n_first = sim::choose(5);
+                let n_second = if two_phases { sim::choose(5) } else { 0 };
+                for k in 0..n_first + n_second {
                     let slot = sim::choose(my_ips.len() as u64) as usize;
                     let net = taps[m][slot].0;
                     let others: Vec<usize> = (0..n_machines).filter(|x| taps[*x].iter().any(|(n, _)| *n == net)).collect();
@@ -148,7 +166,7 @@ impl E2Run for UdpBind {
                         _ => 8 + sim::choose(max as u64 - 8) as usize,
                     };
                     let gap = sim::choose(3) * sim::choose(40);
-                    plan.push((next_id, slot, net, dst_ip, dport, len, gap));
+                    plan.push((if k < n_first { next_id } else { next_id | SECOND }, slot, net, dst_ip, dport, len, gap));
                     next_id += 1;
                 }
                 let mk_pre = |app: usize, list: Vec<([u8; 4], u16)>, binds: Arc<Mutex<Vec<Bind>>>| {
@@ -167,17 +185,44 @@ impl E2Run for UdpBind {
                                 addr,
                                 port,
                                 ok: r.is_ok(),
+                                late: false,
                             });
                         }
                     }
                 };
                 let sents = s2.clone();
+                let late_b = b2.clone();
                 let src_ips = my_ips.clone();
                 let last = m + 1 == n_machines;
                 let a0 = App::<0>::new(m)
                     .pre(mk_pre(0, app_binds[0].clone(), b2.clone()))
                     .script(move |ctx: Ctx| async move {
+                        let begin = tokio::time::Instant::now();
+                        let mut second_started = false;
+                        let late = |ctx: &Ctx| {
+                            for (app, addr, port) in &late_binds {
+                                let r = ctx.machine.protocol::<Udp>().unwrap().listen(app_type(*app), Endpoint::new(Ipv4Address::new(*addr), *port), ctx.machine.clone());
+                                let event = sim::next_event();
+                                sim::count("probe_bind_while_running");
+                                late_b.lock().unwrap().push(Bind {
+                                    event,
+                                    machine: ctx.machine_id,
+                                    app: *app,
+                                    addr: *addr,
+                                    port: *port,
+                                    ok: r.is_ok(),
+                                    late: true,
+                                });
+                            }
+                        };
                         for (id, slot, net, dst_ip, dport, len, gap) in plan {
+                            if id & SECOND != 0 && !second_started {
+                                // every datagram of the first round has long arrived; bind, then wait for the others to have bound
+                                tokio::time::sleep_until(begin + Duration::from_secs(10)).await;
+                                late(&ctx);
+                                tokio::time::sleep_until(begin + Duration::from_secs(11)).await;
+                                second_started = true;
+                            }
                             if gap > 0 {
                                 tokio::time::sleep(Duration::from_millis(gap)).await;
                             }
@@ -204,6 +249,10 @@ impl E2Run for UdpBind {
                             }
                             sim::note_trace(4, id, rec.sent_ok as u64);
                             sents.lock().unwrap().push(rec);
+                        }
+                        if two_phases && !second_started {
+                            tokio::time::sleep_until(begin + Duration::from_secs(10)).await;
+                            late(&ctx);
                         }
                         if last {
                             tokio::time::sleep(Duration::from_secs(30)).await;
@@ -243,7 +292,11 @@ impl E2Run for UdpBind {
         // binding model: first bind of an endpoint on a machine wins, later ones are refused
         binds.sort_by_key(|b| b.event);
         let mut table: BTreeMap<(usize, [u8; 4], u16), usize> = BTreeMap::new();
+        let mut first_round_table = None;
         for b in &binds {
+            if b.late && first_round_table.is_none() {
+                first_round_table = Some(table.clone());
+            }
             let key = (b.machine, b.addr, b.port);
             match table.get(&key) {
                 None => {
@@ -260,6 +313,8 @@ impl E2Run for UdpBind {
                 }
             }
         }
+        let final_table = table;
+        let first_round_table = first_round_table.unwrap_or_else(|| final_table.clone());
         // predicted deliveries from the frames that were actually on the wire
         let mut expected: BTreeMap<(u64, usize, usize), u32> = BTreeMap::new(); // (id, machine, app) -> count
         let mut optional: BTreeMap<(u64, usize, usize), u32> = BTreeMap::new();
@@ -275,6 +330,7 @@ impl E2Run for UdpBind {
                     .filter(|m| taps[*m].iter().any(|(n, mc)| *n == f.network && *mc == mac))
                     .collect(),
             };
+            let table = if id & SECOND != 0 { &final_table } else { &first_round_table };
             for m in reached {
                 let app = table
                     .get(&(m, s.dst.0, s.dst.1))
@@ -332,7 +388,7 @@ impl E2Run for UdpBind {
             let n = expected.get(k).copied().unwrap_or(0) + optional.get(k).copied().unwrap_or(0);
             if *g > n {
                 let s = sents.iter().find(|s| s.id == k.0).unwrap();
-                let bound: Vec<_> = table.iter().filter(|(key, app)| key.0 == k.1 && **app == k.2).map(|(key, _)| (key.1, key.2)).collect();
+                let bound: Vec<_> = final_table.iter().filter(|(key, app)| key.0 == k.1 && **app == k.2).map(|(key, _)| (key.1, key.2)).collect();
                 out.violate(Violation::new(
                     "delivery",
                     "wrong-listener",
@@ -364,7 +420,7 @@ impl E2Run for UdpBind {
     fn budget(&self, tier: &Tier) -> (u64, u64) {
         match tier {
             Tier::Quick => (150_000, 50),
-            Tier::Thorough => (10_000_000, 3000),
+            Tier::Thorough => (10_000_000, 1200),
         }
     }
 
